@@ -93,6 +93,9 @@ package influxql
 //@   let k = rscur(r)
 //@   requires r != nil
 //@   requires forallint(j, 0 <= j && j < rslen(r) ==> rsin(r, j) != 0)
+//@   requires istype(r, *reader) ==> r.(*reader) != nil && 0 <= r.(*reader).i && r.(*reader).i < 3 && 0 <= r.(*reader).n && r.(*reader).n <= 3
+//@   ensures istype(r, *reader) ==> 0 <= r.(*reader).i && r.(*reader).i < 3 && 0 <= r.(*reader).n && r.(*reader).n <= 2
+//@   loop 1 invariant istype(r, *reader) ==> 0 <= r.(*reader).i && r.(*reader).i < 3 && 0 <= r.(*reader).n && r.(*reader).n <= 2
 //@   loop 1 invariant rscur(r) > entry(rscur(r)) && entry(rscur(r)) >= 0 && entry(rscur(r)) < rslen(r) && q != 0
 //@   loop 1 step spec_scanKind(q, rsin(r, old(k)), rsin(r, old(k)+1)) == 0
 //@   loop 1 step k == old(k) + spec_scanLen(rsin(r, old(k)))
